@@ -38,7 +38,18 @@ def targeted(rng):
     names = rng.sample(ge.NAMES, 5)
     a, b, c, d, e = names
     v = lambda n, star=None, ivs=(): [n, star, [list(i) for i in ivs]]  # noqa: E731
-    k = rng.randrange(12)
+    k = rng.randrange(14)
+    if k == 12:  # sibling fractions / sums of fractions with one numerator and different denominators
+        num = ["P", None, [v(a), v(b)], []]
+        dens = [["P", None, [v(a)], []], ["P", None, [v(b)], []], ["P", None, [v(b)], [v(a)]], ["one"]]
+        rng.shuffle(dens)
+        fr = [["frac", num if rng.random() < 0.7 else ["one"], d_] for d_ in dens[: rng.choice([2, 3])]]
+        if rng.random() < 0.4:
+            fr = [["sum", [c], ["prod", [f, ["P", None, [v(c)], []]]]] for f in fr]
+        return ["prod", fr + ([["P", None, [v(d)], []]] if rng.random() < 0.5 else [])]
+    if k == 13:  # factors that differ only in their population tag
+        dist = ([v(a)], [v(b)])
+        return ["prod", [["P", pop, dist[0], dist[1]] for pop in rng.sample(["π1", "π2", "Pi3", None], rng.choice([2, 3]))]]
     if k == 9:  # nested products/fractions over a small pool of atoms (coinciding parts after multiplying out)
         atoms = [["P", None, [v(a)], []], ["P", None, [v(b)], [v(a)]], ["sum", [c], ["P", None, [v(c), v(d)], []]]]
         return ge.rand_fracnest(rng, atoms[: rng.choice([2, 3])], rng.choice([2, 3, 3]))
